@@ -612,7 +612,7 @@ def evaluate_case(sc, c, mres, variant):
             out.append(("restart-exception", what))
         return out
     # finished: never a corrupted grid
-    bad_g = [g for g in log2.gstates if not (g[2] <= TOL) or g[3] != 2 or g[4] != 2]
+    bad_g = [g for g in log2.gstates if not (g[2] <= TOL) or g[3] != 2 or g[4] != 3]     # 2 inputs, 3 outputs (surrdrv NUM_OUT)
     if bad_g:
         out.append(("corrupt-grid-continued", "the restarted process worked with a grid whose loaded values differ from the model: %s" % (bad_g[0],)))
     if not (rs["e_values"] <= TOL and rs["e_eval"] <= TOL):
